@@ -11,6 +11,7 @@ from .rules import recordrules as rr
 from .rules import parser as ps
 from .rules import values as va
 from .rules import ties as ti
+from .rules import gregory as gr
 
 NOT_BEHAVIOUR = 'decides the listed structural clauses (necessary conditions); does not decide the behaviour itself'
 
@@ -157,6 +158,26 @@ prop('C11',
      ['single candidates chosen only via the tie order (R15, R17)', 'withdrawn never acted on (R05)',
       'withdrawn stripped completely (R28)', 'withdrawn ids validated (R26)'],
      ['equality of winners/tallies under renumbering and record equality with the candidate deleted (metamorphic, two runs)'])
+prop('C06',
+     [('R07', gr.r07_transfer_once), ('R08', gr.r08_reset_pairing), ('R09', gr.r09_reweighting), ('R21', va.r21_scale_rounding)],
+     'Static analysis of the five Gregory-family rules: transfer() credits every ballot exactly once (candidate or '
+     'non-transferable total) and walks to the next continuing candidate; tallies are written only by the first count, '
+     'transfer() and the two resets, each reset preceded by the transfer of every ballot standing to that candidate; ballot '
+     'values are written only by the surplus re-weighting old x (tally - quota) / tally of the same elected candidate, '
+     'rounded down, followed by the transfer and the reset to the quota; excluded candidates\' ballots are not re-weighted. '
+     + NOT_BEHAVIOUR,
+     ['transfer credits exactly once (R07)', 'tally-writer inventory and reset pairing (R08)', 're-weighting form, '
+      'rounding direction and context (R09 + R21)'],
+     ['"tally = sum of ballot values" and "values stay in [0,1]" as runtime invariants'])
+
+prop('C10',
+     [('R19', gr.r19_multiplier_last), ('R20', gr.r20_order_free_loops), ('R21', va.r21_scale_rounding)],
+     'Static analysis: the ballot multiplier only ever multiplies a finished (already rounded) per-ballot quantity and the '
+     'product only feeds additive accumulators; no weight or keep computation has the multiplier among its inputs; ballot '
+     'loops only accumulate (no break/return, no plain store to shared state); additions are exact (R21), so neither the '
+     'order of ballot lines nor the split of identical ballots into lines can change a sum. ' + NOT_BEHAVIOUR,
+     ['multiplier applied last (R19)', 'order-free ballot loops (R20)', 'exact addition (R21)'],
+     ['equality of whole records under re-presentation (metamorphic)', 'tokenizer layout/comment/nickname behaviour'])
 
 LEVEL_TEXT = ('Static analysis of the source of /repo (never executed): obligations are enumerated from the '
               'repository\'s own entities (rule classes, call sites, stores, loops, class attributes) and each is '
